@@ -332,6 +332,42 @@ func runC20(tw *traceWriter, r *rand.Rand, ops []string, et int32, cred string) 
 					}
 					outs = append(outs, output{"logline:service-unknown-kvno", slog.Bytes()})
 				}
+			case "diagnoseMisfit":
+				// Client.Diagnostics / Print of clients whose keytab does not fit their realm or configuration: every complaint names
+				// what is missing, never what the keytab holds
+				otherEt := int32(17)
+				if et == 17 {
+					otherEt = 18
+				}
+				kt2 := keytab.New()
+				if e := kt2.AddEntry("alice", realm, password, time.Now(), 1, otherEt); e != nil {
+					panic(e)
+				}
+				ko, _, _ := kt2.GetEncryptionKey(types.PrincipalName{NameType: 1, NameString: []string{"alice"}}, realm, 1, otherEt)
+				markers = append(markers, secretMarker{"ltkey", ko.KeyValue})
+				noKDC, e := config.NewFromString(simConf(realm, map[string][]string{"ELSEWHERE.C20.TEST": {addr}}, lib, nil))
+				if e != nil {
+					panic(e)
+				}
+				for _, v := range []struct {
+					name  string
+					realm string
+					kt    *keytab.Keytab
+					cfg   *config.Config
+				}{{"other-realm", "OTHER.C20.TEST.GOKRB5", kt, cfg}, {"realm-case", strings.ToLower(realm), kt, cfg}, {"other-etype", realm, kt2, cfg},
+					{"no-kdc", realm, kt, noKDC}, {"empty-keytab", realm, keytab.New(), cfg}} {
+					var lb, sb bytes.Buffer
+					c2 := client.NewWithKeytab("alice", v.realm, v.kt, v.cfg, client.DisablePAFXFAST(true), client.Logger(log.New(&lb, "", 0)))
+					emitErr("diagnostics-misfit-"+v.name, c2.Diagnostics(&sb))
+					outs = append(outs, output{"diagnostics:client-misfit-" + v.name, append([]byte{}, sb.Bytes()...)})
+					sb.Reset()
+					c2.Print(&sb)
+					outs = append(outs, output{"print:client-misfit-" + v.name, append([]byte{}, sb.Bytes()...)})
+					ok, ce := c2.IsConfigured()
+					_ = ok
+					emitErr("isconfigured-misfit-"+v.name, ce)
+					outs = append(outs, output{"logline:client-misfit-" + v.name, append([]byte{}, lb.Bytes()...)})
+				}
 			case "embedTicket":
 				var t2 messages.Ticket
 				if haveTkt {
